@@ -316,7 +316,7 @@ func (p *parser) parseUnary() Expr {
 	if t.k == "id" && (t.s == "forall" || t.s == "exists") {
 		return p.parseTop() // a quantifier extends as far to the right as possible
 	}
-	if t.k == "op" && (t.s == "!" || t.s == "-" || t.s == "^") {
+	if t.k == "op" && (t.s == "!" || t.s == "-" || t.s == "^" || t.s == "&") {
 		p.next()
 		x := p.parseUnary()
 		return &EUn{t.s, x}
@@ -423,34 +423,35 @@ type LoopSpec struct {
 }
 
 type Contract struct {
-	Kind      string // func | iface | functype
-	Name      string // canonical name
-	Pkg       string // package name of the file it was read from ("" for trusted)
-	Params    []string
-	Results   []string
-	Props     []string
-	Requires  []*Clause
-	Ensures   []*Clause
-	Modifies  []string
-	HasMod    bool
-	Pure      bool
-	Trusted   bool
-	NoSafety  bool // do not generate run-time panic obligations (used for sweeps that are not claimed)
-	MayPanic  bool
-	Impl      []string // functype / iface contracts this function must also satisfy
-	Loops     map[int]*LoopSpec
-	Ghost     []string
-	File      string
-	Line      int
-	Assumes   []*Clause // assumptions local to this function's verification (listed in evidence)
-	Reveal    []string
+	Kind       string // func | iface | functype
+	Name       string // canonical name
+	Pkg        string // package name of the file it was read from ("" for trusted)
+	Params     []string
+	Results    []string
+	Props      []string
+	Requires   []*Clause
+	Ensures    []*Clause
+	Modifies   []string
+	HasMod     bool
+	Pure       bool
+	Trusted    bool
+	NoSafety   bool // do not generate run-time panic obligations (used for sweeps that are not claimed)
+	MayPanic   bool
+	Impl       []string // functype / iface contracts this function must also satisfy
+	Loops      map[int]*LoopSpec
+	Ghost      []string
+	File       string
+	Line       int
+	Assumes    []*Clause // assumptions local to this function's verification (listed in evidence)
+	Reveal     []string
 	AllocBound *Clause
-	SplitDims [][]*Clause // one entry per split line: alternatives of that dimension
-	Splits    []*Clause // case split (over the entry state) tried when an obligation is not decided directly
-	Checks    []*Clause // facts that must follow from the preconditions (proved at entry)
-	Hints     []*Clause // trigger facts assumed at entry
-	PostHints []*Clause // trigger facts assumed at each return
-	Replay    map[string]string
+	SplitDims  [][]*Clause // one entry per split line: alternatives of that dimension
+	Splits     []*Clause   // case split (over the entry state) tried when an obligation is not decided directly
+	Checks     []*Clause   // facts that must follow from the preconditions (proved at entry)
+	Hints      []*Clause   // trigger facts assumed at entry
+	PostHints  []*Clause   // trigger facts assumed at each return
+	Replay     map[string]string
+	GhostSets [][2]string // ghost assignments executed at every return: target ghost application, value expression
 }
 
 type SpecFun struct {
@@ -470,6 +471,7 @@ type GhostFun struct {
 	Arg  string // type of the object it is attached to
 	Ret  string
 	Mem  string // "ghost T in CLASS": elements of the (slice) result live in memory class CLASS
+	Stable bool // "... stable": not havocked by calls to unknown code (assumption: unknown code leaves it as it found it)
 }
 
 type Lemma struct {
@@ -489,7 +491,7 @@ func NewSpecs() *Specs {
 	return &Specs{Contracts: map[string]*Contract{}, Funs: map[string]*SpecFun{}, Ghosts: map[string]*GhostFun{}}
 }
 
-var keywordRe = regexp.MustCompile(`^(func|iface|functype|spec|ufun|hfun|haxiom|hlemma|axiom|lemma|ghost|property|trusted|pure|implements|requires|ensures|modifies|loop|invariant|decreases|end|may_panic|nosafety|assume|alloc|hint|posthint|replay|check|split)\b`)
+var keywordRe = regexp.MustCompile(`^(func|iface|functype|spec|ufun|hfun|haxiom|hlemma|axiom|lemma|ghost|property|trusted|pure|implements|requires|ensures|modifies|loop|invariant|decreases|end|may_panic|nosafety|assume|alloc|hint|posthint|replay|check|split|ghostset)\b`)
 var labelRe = regexp.MustCompile(`^([A-Za-z_][A-Za-z0-9_.]*)\s*:([^:]|$)`)
 var propTagRe = regexp.MustCompile(`^\[([A-Za-z0-9 ,]+)\]\s*`)
 var headRe = regexp.MustCompile(`^(\S.*?)\(([^)]*)\)\s*(?:\(([^)]*)\))?\s*$`)
@@ -696,6 +698,13 @@ func (sp *Specs) ParseSpecFile(path string, pkg string) error {
 			} else {
 				cur.PostHints = append(cur.PostHints, c)
 			}
+		case "ghostset":
+			// ghostset g(x) = expr      (ghost state only; executed at every return, before the postconditions)
+			k := strings.Index(rest, " = ")
+			if k < 0 {
+				return fmt.Errorf("%s:%d: ghostset needs ' = '", path, l.n)
+			}
+			cur.GhostSets = append(cur.GhostSets, [2]string{strings.TrimSpace(rest[:k]), strings.TrimSpace(rest[k+3:])})
 		case "replay":
 			// replay label: <Go boolean expression over a0.. r0..>
 			i := strings.Index(rest, ":")
@@ -808,6 +817,10 @@ func (sp *Specs) ParseSpecFile(path string, pkg string) error {
 			i := strings.Index(rest, "(")
 			j := matchParen(rest, i)
 			g := &GhostFun{Name: strings.TrimSpace(rest[:i]), Arg: strings.TrimSpace(rest[i+1 : j]), Ret: strings.TrimSpace(rest[j+1:])}
+			if strings.HasSuffix(g.Ret, " stable") {
+				g.Stable = true
+				g.Ret = strings.TrimSpace(strings.TrimSuffix(g.Ret, " stable"))
+			}
 			if k := strings.Index(g.Ret, " in "); k > 0 {
 				g.Mem = strings.TrimSpace(g.Ret[k+4:])
 				g.Ret = strings.TrimSpace(g.Ret[:k])
